@@ -198,9 +198,12 @@ def run_conc(pid, tier, seed, plan):
         quick = tier == "quick"
         for i, sc in enumerate(plan["scenarios"]):
             nthreads = sc["scenario"].count("|") + 1
-            ris = [sc.get("runner", i % nprimary)]
+            ris = [] if sc.get("extra_only") else [sc.get("runner", i % nprimary)]
             ops = set(op for th in sc["scenario"].split(":")[-1].split("|") for op in th.split(","))
-            ris += [k for k in range(nprimary, len(exes)) if not (ops & set(runners[k].get("lacks", ())))]
+            kinds = set(op[0] for op in ops if op)
+            if sc.get("extra_only") or i % plan.get("extra_every", 1) == 0:
+                ris += [k for k in range(nprimary, len(exes))
+                        if not (ops & set(runners[k].get("lacks", ()))) and not (kinds & set(runners[k].get("lacks_kinds", ())))]
             for ri in ris:
                 if sc.get("dfs", True):
                     bound = sc.get("bound", 2 if nthreads <= 2 else 1) + (0 if quick else 1)
